@@ -407,7 +407,15 @@ func (p c08) readPhase(ctx *core.RunCtx, g *c08Gen, e *c08Entry, v ser, data []b
 		dirty := !e.NoDirty && ch.Chance("dirty", 1, 2)
 		var recv ser
 		if dirty {
-			pk, site, msg := core.Protect(func() { recv = e.Gen(g) })
+			gg := g
+			if ch.Chance("receiver-of-smaller-ring", 1, 6) {
+				// the receiver held a value over the ring of half the degree (same moduli): every row has to grow
+				if gs := g.halfDegree(); gs != nil {
+					gg = gs
+					ctx.Count("fault.receiver-from-a-smaller-ring", 1)
+				}
+			}
+			pk, site, msg := core.Protect(func() { recv = e.Gen(gg) })
 			if pk {
 				ctx.Harness("generator of %s panicked in %s: %s", e.Name, site, msg)
 			}
